@@ -109,8 +109,9 @@ def prepare_workspace():
         return
     os.makedirs(WS, exist_ok=True)
     with _Lock('ws'):
-        sh(['rsync', '-a', '--delete', '--exclude', '*.vo', '--exclude', '*.vok', '--exclude', '*.vos', '--exclude', '*.glob',
-            '--exclude', '.*.aux', '--exclude', 'Makefile*', '--exclude', '.Makefile*', '--exclude', 'Generated/',
+        # compiled files are copied too (same mtimes): only what depends on a regenerated table is rebuilt there
+        sh(['rsync', '-a', '--delete', '--exclude', 'Makefile*', '--exclude', '.Makefile*',
+            '--exclude', '.lia.cache', '--exclude', '.nia.cache',
             os.path.join(ROOT, 'coq') + '/', COQ + '/'])
         sh(['rsync', '-a', '--delete', '--exclude', 'Cargo.lock', os.path.join(ROOT, 'harness') + '/', HARNESS + '/'])
         for d in os.listdir(HARNESS):
